@@ -9,6 +9,8 @@
        location, a parameter bound to a partial reference is extended), or the declared default;
      - the arguments of a component instance are its argument template evaluated in its environment
        (the component's own variables are kept);
+     - a parameter bound to a mapping (dictionary) is forwarded whole by a value that is nothing but the
+       reference to it; any value that mixes such a reference with more text makes the namespace invalid;
      - the producer of a complete output reference is the LONGEST component-instance location that
        prefixes its absolute path; the rest of the path is the file.
 
@@ -55,8 +57,22 @@ Fixpoint ev_toks (e : env) (loc : list string) (sib : option (list string)) (kee
               end
   end.
 
+(* a parameter whose value is a MAPPING (dictionary) may only be referenced by a value that consists of nothing
+   but that reference (the mapping is then forwarded whole); a value that splices it into more text is invalid *)
+Definition bound_to_dict (e : env) (x : string) : bool :=
+  match lookup x e with Some vx => is_dict vx | None => false end.
+Definition dict_ok (e : env) (keep : list string) (v : value) : bool :=
+  match v with
+  | [Param _] => true
+  | _ => forallb (fun t => match t with
+                           | Param x => mem x keep || negb (bound_to_dict e x)
+                           | POut x _ _ => negb (bound_to_dict e x)
+                           | _ => true end) v
+  end.
+
 Definition ev (e : env) (loc : list string) (sib : option (list string)) (keep : list string) (v : value)
   : option value :=
+  if negb (dict_ok e keep v) then None else
   match ev_toks e loc sib keep v with
   | Some o => if shape_ok o then Some o else None
   | None => None
